@@ -132,7 +132,7 @@ def jobs(pid, tier, seed):
     out += [{"kind": "wire", "seed": seed * 1000003 + 900000 + i} for i in range(nw)]
     n = 2500 if tier == "quick" else 50000
     out += [{"kind": "random", "seed": seed * 1000003 + i} for i in range(n)]
-    out += [{"kind": "random", "seed": seed * 1000003 + 5000000 + i, "life": 1} for i in range(n // 2)]
+    out += [{"kind": "random", "seed": seed * 1000003 + 5000000 + i, "life": 1} for i in range(n)]
     return out
 
 
